@@ -291,3 +291,46 @@ Section Lazy.
     unfold fail_on at 1. rewrite B1. reflexivity.
   Qed.
 End Lazy.
+
+(** * C13 at the level of the open: windows served by a fragmenting stream *)
+Require Import PM.IO PM.IOProofs.
+
+(** one window served by seek(Start(off)) + take(len) + reads into a [buf]-byte buffer until 0 bytes come back, on a
+    stream that splits the transfers of THIS request according to [sched off len] *)
+Definition stream_fetch (img : bytes) (sched : N -> N -> list N) (buf : N) : fetcher :=
+  fun off len => do (b, _) <- read_to_end (S (N.to_nat len)) buf len (mkRd img off (sched off len) []); Ok b.
+
+Lemma section_min img off len : section img off (N.min len (nlen img - off)) = section img off len.
+Proof. unfold section. destruct (nlen img <=? off); [reflexivity|]. now rewrite <- N.min_assoc, N.min_id. Qed.
+
+Lemma stream_fetch_ideal img sched buf off len : 1 <= buf -> stream_fetch img sched buf off len = img_fetch img off len.
+Proof.
+  intros Hb. unfold stream_fetch, img_fetch.
+  destruct (read_to_end_spec (S (N.to_nat len)) buf len (mkRd img off (sched off len) []) Hb) as (s' & Hr & _); [lia|].
+  rewrite Hr. cbn [bind rd_img rd_pos]. unfold avail. cbn [rd_img rd_pos]. now rewrite section_min.
+Qed.
+
+Section Ext.
+  Context (cx : ctx) (f g : fetcher).
+  Hypothesis Hfg : forall off len, f off len = g off len.
+  Lemma read_dir_io_ext : forall fuel c off len leaf_off r acc,
+    read_dir_io cx f fuel c off len leaf_off r acc = read_dir_io cx g fuel c off len leaf_off r acc.
+  Proof.
+    induction fuel as [|n IH]; intros c off len leaf_off r acc; [reflexivity|]. cbn [read_dir_io]. rewrite Hfg.
+    destruct (g off len) as [sec| |]; cbn [bind]; try reflexivity.
+    destruct (decode_dir cx c sec); cbn [bind]; try reflexivity.
+    apply walk_entries_ext. intros lo l0 a0. apply IH.
+  Qed.
+  Lemma open_io_ext r : open_io cx f r = open_io cx g r.
+  Proof.
+    unfold open_io. rewrite Hfg. destruct (g 0 header_bytes) as [hb| |]; cbn [bind]; try reflexivity.
+    destruct (decode_header hb) as [[h x]| |]; cbn [bind]; try reflexivity.
+    rewrite Hfg. destruct (if h_meta_len h =? 0 then Ok empty_object else do sec <- g (h_meta_off h) (h_meta_len h); read_meta cx (h_icomp h) sec); cbn [bind]; try reflexivity.
+    now rewrite read_dir_io_ext.
+  Qed.
+End Ext.
+
+(** however the stream fragments each request, the open computes what it computes on an in-memory buffer *)
+Theorem open_schedule_independent cx img sched buf r : 1 <= buf ->
+  open_io cx (stream_fetch img sched buf) r = open_io cx (img_fetch img) r.
+Proof. intros Hb. apply open_io_ext. intros off len. now apply stream_fetch_ideal. Qed.
